@@ -18,7 +18,7 @@ RULE = ("configs = 5 generators (dfs, dfs randomized stack / no forks / bounded,
         "interleavings of 0..12 actions (draws on python/numpy/torch/numpy_rng, re-seedings with other seeds, generate / from_config of "
         "OTHER configs, construction of other configs), the request config being constructed BEFORE the history; 4 / 32 fresh "
         "interpreters with distinct PYTHONHASHSEED; one multiprocessing-child scenario. distinct = distinct (config, history seed); "
-        "non-trivial = history with at least one action; later additions: a gen_prim request, seed 0, fractional and 1.0-valued arguments, numeric twins (1 <-> 1.0) and failing library calls in histories, histories in fresh interpreters before the request")
+        "non-trivial = history with at least one action; later additions: a gen_prim request, seed 0, fractional and 1.0-valued arguments, numeric twins (1 <-> 1.0) and failing library calls in histories, histories in fresh interpreters before the request, the generated dataset edited by the caller before the next request, library views (get_nodes, get_connected_component, ...) reordered in place in histories")
 ASSUMPTIONS = ["everything between two RNG events is deterministic Python (no dependence on hash order of strings, time, pid): tested by the "
                "bit-for-bit comparison across histories and PYTHONHASHSEEDs, not proved",
                "all randomness of generation goes through python `random`, numpy's global RNG, torch's global RNG or generators.numpy_rng "
